@@ -389,7 +389,7 @@ func propC07(t *rapid.T) {
 				c.lg = p.lg.WithOptions(zap.Fields(toFields(c.own)...))
 			}
 		case "named":
-			nm := rapid.SampledFrom([]string{"a", "b", "", "x.y", "a"}).Draw(t, "name")
+			nm := rapid.SampledFrom([]string{"a", "b", "", "x.y", "a", ".internal", "..h", "a.", ".", "b"}).Draw(t, "name")
 			if p.sg != nil {
 				c.sg = p.sg.Named(nm)
 			} else {
